@@ -386,6 +386,10 @@ func (c *Cluster) dagReplay(variants int) {
 		if c.synthetic && r.Bool(0.5) {
 			kind = "delay"
 		}
+		if c.cfg.Profile == "C01" && (kind == "batch" || kind == "subdag") {
+			// nodes always run a consensus pass per inserted event; batching is C03's subject
+			kind = "order"
+		}
 		name := fmt.Sprintf("%s#%d", kind, vi)
 		storeKind := "inmem"
 		cache := 10000
